@@ -13,6 +13,10 @@ HEADS = ["", "<head>", "<head></head>", "<head><title>t</title>", "<head><meta c
          "<head><meta http-equiv=content-type>", "<head><script>var a='<meta charset=x>'</script>"] + \
         ["<head><title>t</title><style>" + "p{color:red} " * 110 + "</style><meta http-equiv=%s content='text/html; charset=iso-8859-1'>" % h
          for h in ("Content-Type", "CONTENT-TYPE", "content-type", "cOnTeNt-TyPe")] + \
+        ["<head><meta http-equiv=Content-Type content='text/html; charset=utf-8'><meta name=description content='Café 𝔸 &amp; more'>"
+         "<title>tête</title><meta name=viewport content='width=device-width'>",
+         "<head><meta charset=x><meta name=a content=b><meta http-equiv=refresh content=1><meta property=og:title content=c>",
+         "<head><meta content='text/html; charset=x' http-equiv=content-type><meta name=keywords content='é, ü'><link rel=x>"] + \
         ["<head><title>" + "y" * 1200 + "</title><meta content='text/html; charset=x' http-equiv=%s>" % h for h in ("Content-Type", "CONTENT-type")]
 BODIES = ["<p>é€𝔄 text", "<p a='é€'>x", "plain", "<p>\x85\x9f", "<table><td>☃", "<!--é-->", "",
           # characters whose entity name is stored without ";" (upper-case Latin-1 letters), followed by what decides
